@@ -40,9 +40,13 @@ pub struct Cfg {
     pub replay: Option<(String, u64)>,
     pub profile: &'static str,
     pub threads: usize,
-    /// scale factor for workloads (used by the checked-profile child and by Miri)
+    /// scale factor for workloads (used by the checked-profile child)
     pub scale_pct: u64,
+    /// miniature workload (used under Miri): at most MINI_CASES strided cases per stream
+    pub mini: bool,
 }
+
+pub const MINI_CASES: u64 = 16;
 
 impl Cfg {
     pub fn is_known(&self, id: &str) -> bool {
@@ -242,6 +246,20 @@ where
         let mut cx = CaseCtx { cfg, stream, idx: *i, rng: Rng::for_case(cfg.seed, stream, *i), rep: &mut rep, verbose: true };
         if let Err(p) = catches(|| f(&mut cx)) {
             cx.violation(format!("unexpected panic on an in-domain workload step: {}", p), J::Null);
+        }
+        total.merge(rep);
+        return total;
+    }
+    if cfg.mini {
+        // miniature run: a strided subset of the same deterministic cases, sequentially
+        let k = n.min(MINI_CASES);
+        let mut rep = Report::default();
+        for j in 0..k {
+            let idx = if k == 0 { 0 } else { j * (n / k) };
+            let mut cx = CaseCtx { cfg, stream, idx, rng: Rng::for_case(cfg.seed, stream, idx), rep: &mut rep, verbose: false };
+            if let Err(p) = catches(|| f(&mut cx)) {
+                cx.violation(format!("unexpected panic on an in-domain workload step: {}", p), J::Null);
+            }
         }
         total.merge(rep);
         return total;
